@@ -63,6 +63,9 @@ Fragment 𝔽₂ (function bodies with statements, `Model/CSem2.lean`, `Model/Lo
            | (astore A TY N IDX EXPR)             `a[IDX] = EXPR;` (EXPR converted to TY)
     In (decl K TY EXPR), (set …), (expr …), (ret …) the EXPR may contain (idx TY A N EXPR) - `a[EXPR]`, a the
     array variable A of N elements of type TY - and (calle RT NAME EXPR …) - a call; their operands are pure.
+           | (pload D DT K TY W EXPR)             `x = p[EXPR];` p = parameter K, declared `const TY p[W]`
+           | (callp DST RT NAME ((A TY N) …) EXPR …)  a call whose first arguments are the local arrays A
+    A parameter type may be (ptr TY W): a read-only array parameter `const TY p[W]`; these come first.
 A PROGRAM (stage D, `Model/CSem3.lean`) is a line `(prog FUNC2 …)`: `emit` prints its functions in order;
 `eval` on `(prog …) | a1 a2 …` calls the LAST function with the arguments: `c=` is `CSem3.runP`, `il=` the
 result of `Qbe.runFunc` on the module of all emitted functions; `wt=0` unless `CSem3.wtP`.
@@ -218,6 +221,18 @@ def parseStmtF : Nat → SExp → Except String Stmt
     | .list [.atom "aload", d, dt, a, t, cnt, x] => do
       pure (.aload (← parseNat d) (← parseTy dt) (← parseNat a) (← parseTy t) (← parseNat cnt) 0
         (← parseExprF n x))
+    | .list [.atom "pload", d, dt, k, t, w, x] => do
+      pure (.pload (← parseNat d) (← parseTy dt) (← parseNat k) (← parseTy t) (← parseNat w) 0
+        (← parseExprF n x))
+    | .list (.atom "callp" :: dst :: rt :: .atom name :: .list pas :: args) => do
+      let d ← match dst with
+        | .list [.atom "none"] => pure none
+        | .list [k, t] => do pure (some (← parseNat k, ← parseTy t))
+        | _ => .error "call destination"
+      let pa ← pas.mapM fun
+        | .list [a, t, cnt] => do pure (← parseNat a, ← parseTy t, ← parseNat cnt, 0)
+        | _ => .error "array argument"
+      pure (.callp d (← parseTy rt) name pa (← args.mapM (parseExprF n)))
     | .list [.atom "astore", a, t, cnt, x, v] => do
       pure (.astore (← parseNat a) (← parseTy t) (← parseNat cnt) 0 (← parseExprF n x) (← parseExpr3F n v))
     | _ => .error "statement"
@@ -231,21 +246,23 @@ def setXb3 (cnts : List Nat) : CSem2.Expr3 → CSem2.Expr3
   | .cond t c a b => .cond t (setXb3 cnts c) (setXb3 cnts a) (setXb3 cnts b)
   | e => e
 
-def setXb (cnts : List Nat) : CSem2.Stmt → CSem2.Stmt
+def setXb (cnts : List Nat) (wb : Nat → Nat) : CSem2.Stmt → CSem2.Stmt
   | .decl i t (some e) => .decl i t (some (setXb3 cnts e))
   | .assign i t e => .assign i t (setXb3 cnts e)
   | .expr e => .expr (setXb3 cnts e)
   | .ret e => .ret (setXb3 cnts e)
-  | .seq a b => .seq (setXb cnts a) (setXb cnts b)
-  | .ite c a => .ite (setXb3 cnts c) (setXb cnts a)
-  | .itee c a b => .itee (setXb3 cnts c) (setXb cnts a) (setXb cnts b)
-  | .while_ c b => .while_ (setXb3 cnts c) (setXb cnts b)
-  | .dowhile b c => .dowhile (setXb cnts b) (setXb3 cnts c)
-  | .for_ c st b => .for_ (c.map (setXb3 cnts)) (setXb cnts st) (setXb cnts b)
-  | .switch_ e b => .switch_ (setXb3 cnts e) (setXb cnts b)
+  | .seq a b => .seq (setXb cnts wb a) (setXb cnts wb b)
+  | .ite c a => .ite (setXb3 cnts c) (setXb cnts wb a)
+  | .itee c a b => .itee (setXb3 cnts c) (setXb cnts wb a) (setXb cnts wb b)
+  | .while_ c b => .while_ (setXb3 cnts c) (setXb cnts wb b)
+  | .dowhile b c => .dowhile (setXb cnts wb b) (setXb3 cnts c)
+  | .for_ c st b => .for_ (c.map (setXb3 cnts)) (setXb cnts wb st) (setXb cnts wb b)
+  | .switch_ e b => .switch_ (setXb3 cnts e) (setXb cnts wb b)
   | .adecl i t n _ => .adecl i t n (CSem2.xbase cnts i)
   | .aload d dt a t n _ x => .aload d dt a t n (CSem2.xbase cnts a) x
   | .astore a t n _ x v => .astore a t n (CSem2.xbase cnts a) x (setXb3 cnts v)
+  | .pload d dt k t w _ x => .pload d dt k t w (wb k) x
+  | .callp d rt fn pa args => .callp d rt fn (pa.map fun a => (a.1, a.2.1, a.2.2.1, CSem2.xbase cnts a.1)) args
   | st => st
 
 def parseFunc2 (fuel : Nat) : SExp → Except String CSem2.Func
@@ -256,8 +273,14 @@ def parseFunc2 (fuel : Nat) : SExp → Except String CSem2.Func
     let lc ← ls.mapM fun
       | .list [_, c] => parseNat c
       | _ => pure 1
-    let f : CSem2.Func := ⟨name, ← parseTy ret, ← ps.mapM parseTy, lt, ← parseStmtF fuel body, lc⟩
-    pure { f with body := setXb f.cnts f.body }
+    let pt ← ps.mapM fun
+      | .list [.atom "ptr", _, _] => pure CSem.Ty.ulong
+      | t => parseTy t
+    let pw ← ps.filterMapM fun
+      | .list [.atom "ptr", t, w] => do pure (some (← parseTy t, ← parseNat w))
+      | _ => pure none
+    let f : CSem2.Func := ⟨name, ← parseTy ret, pt, lt, ← parseStmtF fuel body, lc, pw⟩
+    pure { f with body := setXb f.cnts f.wbase f.body }
   | _ => .error "function"
 
 inductive Line where
